@@ -6,7 +6,7 @@ _SIM = ("Trusts the chain simulator (harness/chain: real PocketCoreApp over MemD
         "application / pos stores. ")
 
 CHECKS = {
-    "C20": c("appsmod", "TestC20", dict(checks=700, timeout=600), dict(checks=1500, shards=14, timeout=1500),
+    "C20": c("appsmod", "TestC20", dict(checks=500, timeout=600), dict(checks=1500, shards=14, timeout=1500),
              technique="property-based invariant checking over generated transaction histories run through the real application (chain simulator); "
                        "invariant recomputed after every Commit from raw application records and the pool's account balance",
              design_ref="DESIGN.md §7 C20",
@@ -35,6 +35,6 @@ CHECKS = {
                         "already-registered / same keys signed by the current application, a stranger, a stranger presenting the application's public key, or the new key; "
                         "every DeliverTx is judged from the raw records before and after. Exploration only, no absence claim.",
              level_note=_SIM + "The relay allowance oracle reads BaseRelaysPerPOKT as hundredths of a relay per POKT (what the code does; the parameter's doc string "
-                        "says 'base relays per POKT coin staked'); with ParticipationRateOn the oracle is exact-rational and tolerates a difference of 1 against the "
-                        "18-digit decimal arithmetic. Non-ed25519 target keys are not generated."),
+                        "says 'base relays per POKT coin staked'); with ParticipationRateOn the oracle is exact-rational and tolerates 2 + baseline*1e-18 against the "
+                        "18-digit decimal arithmetic of the implementation. Non-ed25519 target keys are not generated."),
 }
